@@ -4,3 +4,4 @@ import YataDriver.Methods
 import YataDriver.SpecEval
 import YataDriver.Action
 import YataDriver.Candle
+import YataDriver.Renko
